@@ -6,6 +6,11 @@ import warnings
 rowsep = '\n'
 colsep = '  '
 
+def _matrix_of_context(name):
+    # (unpickling: an empty matrix of the global context of that name)
+    import mpmath
+    return getattr(mpmath, name).matrix(0)
+
 class _matrix(object):
     """
     Numerical matrix.
@@ -736,6 +741,18 @@ class _matrix(object):
         return new
 
     __copy__ = copy
+
+    def __reduce_ex__(self, protocol):
+        # Every context has a matrix class of its own, which pickle cannot
+        # find by name (the class of the global mp context is registered
+        # under the name: see the pickle hack in __init__). A matrix of the
+        # global fp or iv context is rebuilt through that context
+        if type(self) is self.ctx.matrix:
+            import mpmath
+            for name in ('fp', 'iv'):
+                if getattr(mpmath, name, None) is self.ctx:
+                    return (_matrix_of_context, (name,), self.__dict__)
+        return object.__reduce_ex__(self, protocol)
 
     def column(self, n):
         m = self.ctx.matrix(self.rows, 1)
